@@ -49,8 +49,12 @@ def num(x):
     return ("num", float(x))
 
 
+ALIAS = {"specdelta": "delta", "specsigma": "sigma", "specdmax": "dmax", "specregion": "region"}
+
+
 def _q(name, seq, args):
     sp = SP()(seq)
+    name = ALIAS.get(name, name)
     if name == "kappa":
         return num(sp.get_kappa())
     if name == "delta":
